@@ -623,6 +623,61 @@ fn prefilter(args: &[String]) {
                 }
             }
         }
+        // One top-level pass that both GROWS and, in total, SHRINKS the buffer (a context lookup nesting a multiple
+        // substitution and a ligature), followed by lookups on the glyphs created in that pass: whatever the pass does to the
+        // working digest, it must still cover the glyphs it produced.
+        {
+            let ids: [u16; 9] = [9, 21, 77, 130, 300, 700, 1234, 2500, 4000];
+            for k in 0..60u64 {
+                let mut spec = FontSpec::basic(4100);
+                spec.cmap = (0..6u32).map(|i| (pua(i), 1 + i as u16)).collect();
+                let pickid = |r: &mut Rng| ids[r.below(ids.len() as u64) as usize];
+                let (x, y, l) = (pickid(&mut r), pickid(&mut r) + 1, pickid(&mut r) + 2);
+                let (mx, my, ml) = (pickid(&mut r) + 3, pickid(&mut r) + 4, pickid(&mut r) + 5);
+                let ncomp = 2 + r.below(2) as usize; // ligature of 3 or 4 glyphs: B C D [E]
+                let lig_at = 1 + r.below(2) as u16;
+                let mult = Lookup::one(SubstSubtable::Multiple { coverage: Coverage::Glyphs(vec![1]), sequences: vec![vec![x, y]] });
+                let lig = Lookup::one(SubstSubtable::Ligature { coverage: Coverage::Glyphs(vec![2]), ligature_sets: vec![vec![Ligature { glyph: l, components: (3..3 + ncomp as u16).collect() }]] });
+                let covs: Vec<Coverage> = (1..=(2 + ncomp as u16)).map(|g| Coverage::Glyphs(vec![g])).collect();
+                // the ligature record comes second: after A -> X Y the sequence positions behind A have moved by one
+                let records = if k % 3 == 0 { vec![SeqLookup { sequence_index: 1, lookup_index: 2 }, SeqLookup { sequence_index: 0, lookup_index: 1 }] } else { vec![SeqLookup { sequence_index: 0, lookup_index: 1 }, SeqLookup { sequence_index: lig_at + 1, lookup_index: 2 }, SeqLookup { sequence_index: lig_at, lookup_index: 2 }] };
+                let ctx = Lookup::one(SubstSubtable::Context3 { coverages: covs, lookups: records });
+                let single = |a: u16, b: u16| Lookup::one(SubstSubtable::Single2 { coverage: Coverage::Glyphs(vec![a]), substitutes: vec![b] });
+                let mut lookups = vec![ctx, mult, lig.clone(), lig, single(l, ml), single(x, mx), single(y, my)];
+                if k % 2 == 0 {
+                    lookups.swap(4, 6);
+                }
+                spec.gsub = Some(Layout::single_feature(*b"calt", lookups));
+                let data = build(&spec);
+                for t in [vec![0u32, 1, 2, 3, 4], vec![1, 2, 3, 4], vec![5, 0, 1, 2, 3, 4, 5], vec![0, 1, 2, 3, 4, 0, 1, 2, 3, 4], vec![0, 1, 2, 3]] {
+                    let req = Req { text: t.iter().enumerate().map(|(i, c)| (pua(*c), i as u32)).collect(), flags: 3, dir: Some(rustybuzz::Direction::LeftToRight), ..Default::default() };
+                    let d1 = data.clone();
+                    let rq = req.clone();
+                    VERIF_PREFILTER_OFF.store(false, Ordering::SeqCst);
+                    let on = catch(move || { let f = rustybuzz::Face::from_slice(&d1, 0).unwrap(); shape_req(&f, &rq) });
+                    let d2 = data.clone();
+                    let rq = req.clone();
+                    VERIF_PREFILTER_OFF.store(true, Ordering::SeqCst);
+                    let off = catch(move || { let f = rustybuzz::Face::from_slice(&d2, 0).unwrap(); shape_req(&f, &rq) });
+                    VERIF_PREFILTER_OFF.store(false, Ordering::SeqCst);
+                    shapes += 1;
+                    gen_shapes += 1;
+                    if let Ok(o) = &off {
+                        if o.iter().any(|g| g.gid == ml as u32) && o.iter().any(|g| g.gid == mx as u32) {
+                            nontrivial += 1;
+                        }
+                    }
+                    if on != off {
+                        diffs += 1;
+                        if diffs <= 10 {
+                            println!("diff font=generated:grow-and-shrink-in-one-pass-{} req=[{}] on={} off={}", k, fmt_req(&req),
+                                match &on { Ok(g) => fmt_g(g), Err(e) => format!("panic {}", e) },
+                                match &off { Ok(g) => fmt_g(g), Err(e) => format!("panic {}", e) });
+                        }
+                    }
+                }
+            }
+        }
         // A buffer recycled from an earlier shaping: the context digest of a call is built from the glyphs of THAT call.
         // GSUB-only font (nothing after GSUB consumes anything): "xy" first, then "fi" in the recycled buffer.
         {
